@@ -7,8 +7,8 @@ func registerProperty(p *Property) { propTable[p.ID] = p }
 func init() {
 	registerProperty(&Property{
 		ID:          "C01",
-		Rules:       []string{"codec-symmetry", "keyword-table", "zero-preserving", "proxy-complete", "ref-key", "escape", "name-verbatim", "marshal-receiver", "make-append-json", "dispatch-admits-shortest", "absence-is-nil"},
-		Explanation: "Decides the table agreements that JSON round-trip losslessness rests on: for every kind with hand-written codecs, every component is both encoded and decoded (codec-symmetry); every member the Swagger 2.0 / draft-4 meta-schemas define for a kind has a byte-identical JSON field or hand-coded holder (keyword-table); numeric keywords are pointer-typed and no omitempty sits on a non-pointer numeric (zero-preserving); anonymous encode proxies carry and populate every member of the component they replace (proxy-complete); writer and reader of $ref/$schema agree on the member name (ref-key). Added after seeding round 2: encoders emit user-chosen member names exactly (name-verbatim, both directions); the decoded $ref text reaches the reference parser unrewritten (ref-key text-verbatim); a slice filled by append starts empty (make-append-json); first-byte dispatches look at every input of two bytes or more, so {} and [] are dispatched (dispatch-admits-shortest); a decoder gives up early only on a nil test, never because the decoded value equals a zero constant (absence-is-nil).",
+		Rules:       []string{"codec-symmetry", "keyword-table", "zero-preserving", "proxy-complete", "ref-key", "escape", "name-verbatim", "marshal-receiver", "make-append-json", "dispatch-admits-shortest", "absence-is-nil", "encoder-constants-decodable"},
+		Explanation: "Decides the table agreements that JSON round-trip losslessness rests on: for every kind with hand-written codecs, every component is both encoded and decoded (codec-symmetry); every member the Swagger 2.0 / draft-4 meta-schemas define for a kind has a byte-identical JSON field or hand-coded holder (keyword-table); numeric keywords are pointer-typed and no omitempty sits on a non-pointer numeric (zero-preserving); anonymous encode proxies carry and populate every member of the component they replace (proxy-complete); writer and reader of $ref/$schema agree on the member name (ref-key). Added after seeding round 2: encoders emit user-chosen member names exactly (name-verbatim, both directions); the decoded $ref text reaches the reference parser unrewritten (ref-key text-verbatim); a slice filled by append starts empty (make-append-json); first-byte dispatches look at every input of two bytes or more, so {} and [] are dispatched (dispatch-admits-shortest); a decoder gives up early only on a nil test, never because the decoded value equals a zero constant (absence-is-nil). encoder-constants-decodable also folds decode+encode of every constant text an encoder can emit (true, false, {}, null) and requires the constant to come back.",
 		NotCovered:  "round-trip equality of values (number formatting, free-form payloads, escaping of member names - see C06), deep nesting and combinations; x- members on externalDocs/xml objects (no holder in the types; informational note only)",
 	})
 }
@@ -52,14 +52,14 @@ func init() {
 func init() {
 	registerProperty(&Property{
 		ID:          "C14",
-		Rules:       []string{"gob-shapes", "gob-proxy-symmetry", "gob-via-json", "codec-must-pass", "make-append"},
+		Rules:       []string{"gob-shapes", "gob-proxy-symmetry", "gob-via-json", "codec-must-pass", "make-append", "encode-nil-empty-alike"},
 		Explanation: "Which Go shapes gob cannot carry is a property of types: gob-shapes walks the type graph from the types the property names exactly as encoding/gob does (exported fields, through pointers, slices, maps and embedded structs; at a type with GobEncode it continues from the proxy value that body hands to the encoder, method-less aliases included) and reports every position of a lossy shape with a JSON-visible effect: L1 pointer to a basic type (pointed-to zero omitted, comes back nil), L2 interface{} position (empty container comes back nil), L4 struct with only unexported state and no codec; and checks the gob.Register calls. gob-proxy-symmetry checks every GobEncode/GobDecode pair: same proxy type, every receiver component covered on both sides, every proxy field set and consumed, and the nil / empty / non-empty security states distinguished on both sides. gob-via-json reduces Ref's gob law to its JSON law. make-append: no gob codec makes a slice with a non-zero length and then appends to it.",
 		NotCovered:  "equality of values after transport; L3 (nil-versus-empty slices whose difference is JSON-visible) beyond the security padding codec; behaviour of encoding/gob itself",
 	})
 	registerProperty(&Property{
 		ID:          "C13",
-		Rules:       []string{"ref-key", "gob-via-json", "ref-opaque", "codec-must-pass"},
-		Explanation: "Canonicalisation and classification live in jsonreference and net/url (trusted). Decided, as necessary conditions of the JSON/gob half: writer and reader of $ref use the same member name and Ref.MarshalJSON's constant outputs parse (at analysis time) to {} or an object with exactly that member (ref-key); Ref's gob codec wraps its JSON codec and propagates every error (gob-via-json); no function of the package stores into jsonreference.Ref's classification flags or builds one by literal, and every spec.Ref literal wraps a parsed reference, so classification stays a function of the parsed text (ref-opaque). ref-key also requires that Ref.fromMap hands the decoded member text itself to the reference parser.",
+		Rules:       []string{"ref-key", "gob-via-json", "ref-opaque", "codec-must-pass", "absence-is-nil"},
+		Explanation: "Canonicalisation and classification live in jsonreference and net/url (trusted). Decided, as necessary conditions of the JSON/gob half: writer and reader of $ref use the same member name and Ref.MarshalJSON's constant outputs parse (at analysis time) to {} or an object with exactly that member (ref-key); Ref's gob codec wraps its JSON codec and propagates every error (gob-via-json); no function of the package stores into jsonreference.Ref's classification flags or builds one by literal, and every spec.Ref literal wraps a parsed reference, so classification stays a function of the parsed text (ref-opaque). ref-key also requires that Ref.fromMap hands the decoded member text itself to the reference parser. absence-is-nil: the decoder of a reference leaves the receiver untouched only on nil tests, so the present-but-empty {\"$ref\":\"\"} (the root reference) is not taken for an absent member.",
 		NotCovered:  "idempotence of canonicalisation, equality of decoded references, classification correctness: all value-level inside jsonreference/net/url",
 	})
 }
@@ -67,8 +67,8 @@ func init() {
 func init() {
 	registerProperty(&Property{
 		ID:          "C03",
-		Rules:       []string{"visit", "containers", "ref-clear", "ref-store", "opts-copy-complete", "cut-check", "location-prefix", "denorm-final", "origin-compare"},
-		Explanation: "Decides the per-site disciplines 'only cycle cut-points remain' rests on. visit: every access path from Schema to a nested Schema (enumerated from the types, so a new schema-bearing field adds an obligation) is passed to the schema expander and the dereferenced result stored back at the same path. containers: every holder of refable elements (Swagger, PathItem, Operation, Parameter, Response; positions enumerated from the types) is handed to the matching expander, and by-value copies are written back. ref-clear (go/cfg must-analysis): every path from a completed dereference to a successful return stores the zero Ref into the holder. ref-store: every other store into a schema's Ref is a rewrite of a normalised reference against the root context (basePath, rootID) - or the normalised reference itself under AbsoluteCircularRef - and is control-dependent on isCircular having returned true, on skip-schemas mode, or on the empty-root-ref guard. location-prefix: a location (URL text, URL path) is used as a string prefix of another only where it is known to be empty or slash-terminated, so the relative $ref kept at a cut-point is cut at a segment boundary. denorm-final: once a $ref has been rewritten relative to the root document the value holding it is not handed to an expander again (it would be read against the current document's base a second time). origin-compare: component-wise comparisons of two locations include scheme and host, the host with its port.",
+		Rules:       []string{"visit", "containers", "ref-clear", "ref-store", "opts-copy-complete", "cut-check", "location-prefix", "denorm-final", "origin-compare", "escaped-into-decoded"},
+		Explanation: "Decides the per-site disciplines 'only cycle cut-points remain' rests on. visit: every access path from Schema to a nested Schema (enumerated from the types, so a new schema-bearing field adds an obligation) is passed to the schema expander and the dereferenced result stored back at the same path. containers: every holder of refable elements (Swagger, PathItem, Operation, Parameter, Response; positions enumerated from the types) is handed to the matching expander, and by-value copies are written back. ref-clear (go/cfg must-analysis): every path from a completed dereference to a successful return stores the zero Ref into the holder. ref-store: every other store into a schema's Ref is a rewrite of a normalised reference against the root context (basePath, rootID) - or the normalised reference itself under AbsoluteCircularRef - and is control-dependent on isCircular having returned true, on skip-schemas mode, or on the empty-root-ref guard. location-prefix: a location (URL text, URL path) is used as a string prefix of another only where it is known to be empty or slash-terminated, so the relative $ref kept at a cut-point is cut at a segment boundary. denorm-final: once a $ref has been rewritten relative to the root document the value holding it is not handed to an expander again (it would be read against the current document's base a second time). origin-compare: component-wise comparisons of two locations include scheme and host, the host with its port. containers additionally requires that an element is handed to its expander under no condition on another part of the same holder (an operation without responses still has its parameters expanded).",
 		NotCovered:  "that a kept $ref actually resolves to a node on a cycle; that denormalizeRef/rebase compute the right relative form; determinism of the output beyond C06's rules",
 	})
 }
@@ -86,7 +86,7 @@ func init() {
 	registerProperty(&Property{
 		ID:          "C08",
 		Rules:       []string{"errflow", "single-decision", "nilres", "ref-store", "continue-honoured", "ptr-fill-guard", "opts-copy-complete", "lookup-table"},
-		Explanation: "The error-discipline template filled from the repository. errflow: in every function reachable from an exported Expand*/Resolve* entry point, every call that can fail (package-internal error-returning functions, the document loader called through its field, DynamicJSONToStruct, Pointer.Get, json.Unmarshal, jsonreference.New) has its error returned directly, or tested by the very next statement with `err != nil` / the stop predicate and the same value returned on that branch, or tested with `err == nil`; blank assignment, a dropped result, an intervening overwrite, a check on another variable, or returning nil in the error branch are violations; two audited exceptions are keyed by caller:callee#n with a reason. single-decision: ContinueOnError is read in exactly one function, a predicate over the error whose body answers 'stop' only under err != nil && !ContinueOnError and does so first. nilres and ref-store (shared with C04/C03) make continuing safe and leave a failed $ref verbatim.",
+		Explanation: "The error-discipline template filled from the repository. errflow: in every function reachable from an exported Expand*/Resolve* entry point, every call that can fail (package-internal error-returning functions, the document loader called through its field, DynamicJSONToStruct, Pointer.Get, json.Unmarshal, jsonreference.New) has its error returned directly, or tested by the very next statement with `err != nil` / the stop predicate and the same value returned on that branch, or tested with `err == nil`; blank assignment, a dropped result, an intervening overwrite, a check on another variable, or returning nil in the error branch are violations; two audited exceptions are keyed by caller:callee#n with a reason. single-decision: ContinueOnError is read in exactly one function, a predicate over the error whose body answers 'stop' only under err != nil && !ContinueOnError and does so first. nilres and ref-store (shared with C04/C03) make continuing safe and leave a failed $ref verbatim. continue-honoured: once the stop predicate has let an error through, that error is not returned. ptr-fill-guard: the value filled by a resolution is used only where the error of that resolution is known to be nil (a half-decoded ill-typed target must not replace the $ref).",
 		NotCovered:  "that every unresolvable target produces an error inside the dependencies; spurious errors on well-formed input (value-level); that everything not depending on a failed $ref is expanded as it would have been otherwise",
 	})
 }
@@ -94,13 +94,13 @@ func init() {
 func init() {
 	registerProperty(&Property{
 		ID:          "C02",
-		Rules:       []string{"thread-args", "switch-on-follow", "ref-store", "opts-copy-complete", "loader-shares-state", "entry-wiring", "location-prefix", "chain-ref-absolute", "denorm-final", "origin-compare"},
-		Explanation: "Bisimilarity is a relation between run-time graphs and is not decided. Decided are the threading disciplines behind 'a $ref is always interpreted relative to the document that textually contains it': at every call between expander family members (found by role) the base-path argument derives only from the caller's own base path, from id re-scoping (setSchemaID), from updateBasePath for the resolver just created, or from RemoteURI() of the normalised ref just followed, and the loader argument only from the caller's loader or from transitiveResolver(current base, the $ref being followed) (thread-args); after a followed $ref, whatever is expanded next receives the transitive resolver and the updated base (switch-on-follow); kept refs are rewritten against the root frame (ref-store). location-prefix: 'same document' and 'below this folder' are never decided by a plain string prefix of one location in another (spec.json vs spec.json2); two genuine defects of that kind were found and repaired. chain-ref-absolute: the chain dereference, which moves to another base at every hop, continues each hop on the resolver for that hop's document and leaves the last $ref of a chain in absolute form for its callers. denorm-final and origin-compare as under C03. Five genuine defects of this kind were found (three of them first reported by independent seeding agents) and repaired.",
+		Rules:       []string{"thread-args", "switch-on-follow", "ref-store", "opts-copy-complete", "loader-shares-state", "entry-wiring", "location-prefix", "chain-ref-absolute", "denorm-final", "origin-compare", "escaped-into-decoded"},
+		Explanation: "Bisimilarity is a relation between run-time graphs and is not decided. Decided are the threading disciplines behind 'a $ref is always interpreted relative to the document that textually contains it': at every call between expander family members (found by role) the base-path argument derives only from the caller's own base path, from id re-scoping (setSchemaID), from updateBasePath for the resolver just created, or from RemoteURI() of the normalised ref just followed, and the loader argument only from the caller's loader or from transitiveResolver(current base, the $ref being followed) (thread-args); after a followed $ref, whatever is expanded next receives the transitive resolver and the updated base (switch-on-follow); kept refs are rewritten against the root frame (ref-store). location-prefix: 'same document' and 'below this folder' are never decided by a plain string prefix of one location in another (spec.json vs spec.json2); two genuine defects of that kind were found and repaired. chain-ref-absolute: the chain dereference, which moves to another base at every hop, continues each hop on the resolver for that hop's document and leaves the last $ref of a chain in absolute form for its callers. denorm-final and origin-compare as under C03. Five genuine defects of this kind were found (three of them first reported by independent seeding agents) and repaired. escaped-into-decoded: the decoded components of a url.URL are never assigned escaped text. chain-ref-absolute also requires that the hop guard excludes only the first hop and that the resolver of the next hop is chosen from the normalised reference of the hop just followed.",
 		NotCovered:  "that normalizeURI, transitiveResolver's prefix test or resolveRef's root selection compute the right document (values) - in particular the wrong-document resolutions on multi-hop chains the property text mentions are value-level and invisible to these rules; map iteration order effects",
 	})
 	registerProperty(&Property{
 		ID:          "C09",
-		Rules:       []string{"skip-shape", "containers", "ref-clear", "ref-store", "opts-copy-complete", "switch-on-follow", "thread-args", "entry-wiring", "location-prefix", "denorm-final", "origin-compare"},
+		Rules:       []string{"skip-shape", "containers", "ref-clear", "ref-store", "opts-copy-complete", "switch-on-follow", "thread-args", "entry-wiring", "location-prefix", "denorm-final", "origin-compare", "escaped-into-decoded", "chain-ref-absolute"},
 		Explanation: "Decides the shape of skip-schemas mode: in the schema expander the statements executed under SkipSchemas call nothing that resolves references, change nothing but the schema's Ref and return the target itself; that Ref store is a root-frame rewrite of a normalised reference (ref-store). In ExpandSpec only the definitions loop is control-dependent on !SkipSchemas; parameters, responses and path items are expanded unconditionally, completely dereferenced and cleared (containers, ref-clear), and the schema below a dereferenced parameter/response is still handed to the schema expander so nested refs are rebased. location-prefix: the folder a kept $ref is rebased against is slash-terminated where it is trimmed. denorm-final, origin-compare: as under C03 (the kept $ref must stay valid).",
 		NotCovered:  "that the rebased string designates the same target; that a later full expansion gives the same outcome as a direct one",
 	})
@@ -124,14 +124,14 @@ func init() {
 func init() {
 	registerProperty(&Property{
 		ID:          "C18",
-		Rules:       []string{"load-once", "canon-key", "globals", "root-registered", "loader-shares-state"},
+		Rules:       []string{"load-once", "canon-key", "globals", "root-registered", "loader-shares-state", "id-once", "switch-on-follow"},
 		Explanation: "Transparency of results is value-level and not decided. Decided: the document loader (a func-typed field of the resolver context, found by role) is called at exactly one site, which is the field's only reader; that call is reachable only on the miss branch of a cache lookup; lookup, loader call and cache fill use one key variable assigned once from normalizeBase; every successful return after the load (go/cfg) has stored the decoded document under that key (load-once). Every other cache Get/Set uses a key produced by the normaliser, with the fragment cleared (canon-key), so 'already present in the supplied cache' is decided on the key the loader would be called with. The default cache is a clone of the built-in one (globals).",
 		NotCovered:  "that results are identical with and without a cache (values); the behaviour of caller-supplied cache implementations",
 	})
 	registerProperty(&Property{
 		ID:          "C11",
-		Rules:       []string{"canon-entry", "canon-key", "entry-wiring", "canon-normalizer", "cwd-at-call-time"},
-		Explanation: "Equality of results across spellings and idempotence of normalizeBase are value-level and not decided. Decided: every base location that enters through the API passes through the normaliser before it can reach a loader, a cache key or a family call: the options cloner replaces a non-empty RelativeBase by normalizeBase of itself and returns the clone; the pseudo-root helper returns a normalizeBase result; the loader factory substitutes it when no base is given; every entry point takes its base from the cloned options or from the pseudo-root helper (entry-wiring); every cache key and the argument of the document loader are normaliser results with the fragment cleared (canon-key). cwd-at-call-time: relative spellings are anchored at the working directory read at the time of the call.",
+		Rules:       []string{"canon-entry", "canon-key", "entry-wiring", "canon-normalizer", "cwd-at-call-time", "scheme-on-parsed"},
+		Explanation: "Equality of results across spellings and idempotence of normalizeBase are value-level and not decided. Decided: every base location that enters through the API passes through the normaliser before it can reach a loader, a cache key or a family call: the options cloner replaces a non-empty RelativeBase by normalizeBase of itself and returns the clone; the pseudo-root helper returns a normalizeBase result; the loader factory substitutes it when no base is given; every entry point takes its base from the cloned options or from the pseudo-root helper (entry-wiring); every cache key and the argument of the document loader are normaliser results with the fragment cleared (canon-key). cwd-at-call-time: relative spellings are anchored at the working directory read at the time of the call. scheme-on-parsed: a function that parses a location never tests the scheme on the raw text (case-sensitive) instead of the parsed scheme.",
 		NotCovered:  "that normalizeBase's output is scheme-present/absolute/cleaned and that it is idempotent (its contract: values); equality of expansion results across spellings",
 	})
 }
@@ -139,14 +139,14 @@ func init() {
 func init() {
 	registerProperty(&Property{
 		ID:          "C10",
-		Rules:       []string{"entry-wiring", "opts-immutable", "root-readonly", "visit", "cut-check", "root-registered", "opts-copy-complete"},
-		Explanation: "Sibling cross-check of the exported entry points: every Expand*/Resolve* function that builds a loader does so through the loader factory with a fresh context, with options that are either the clone of the caller's or a literal based on the pseudo-root location, passes to the expander family as base path the RelativeBase of those very options, and - for the *WithRoot / ExpandSchema variants - registers the root through the pseudo-root helper in the same cache value the loader receives, for the same root (entry-wiring). The caller's *ExpandOptions flows only into the cloner, which copies by value and never writes through its parameter (opts-immutable). The root and cached documents are only read (root-readonly). Because all entry points reach the same family members, visit and cut-check (completeness, termination mechanism) hold for each.",
+		Rules:       []string{"entry-wiring", "opts-immutable", "root-readonly", "visit", "cut-check", "root-registered", "opts-copy-complete", "id-once", "factory-keeps-options"},
+		Explanation: "Sibling cross-check of the exported entry points: every Expand*/Resolve* function that builds a loader does so through the loader factory with a fresh context, with options that are either the clone of the caller's or a literal based on the pseudo-root location, passes to the expander family as base path the RelativeBase of those very options, and - for the *WithRoot / ExpandSchema variants - registers the root through the pseudo-root helper in the same cache value the loader receives, for the same root (entry-wiring). The caller's *ExpandOptions flows only into the cloner, which copies by value and never writes through its parameter (opts-immutable). The root and cached documents are only read (root-readonly). Because all entry points reach the same family members, visit and cut-check (completeness, termination mechanism) hold for each. factory-keeps-options: the loader factory works on the options value it was handed (entry points read the base back from it). id-once:registers-always: the id-scoped registration does not depend on what the cache already holds.",
 		NotCovered:  "agreement of results between entry points (values); aliasing between the element and the root when the caller shares storage",
 	})
 	registerProperty(&Property{
 		ID:          "C05",
 		Rules:       []string{"resolve-pure", "root-readonly", "errflow", "resolve-strict", "typed-nil-guard", "lookup-table"},
-		Explanation: "Decided: no Resolve* entry point reaches an expander or the chain dereference, so nested $refs are not followed (resolve-pure); root and cached documents flow only to nil tests, jsonpointer.Pointer.Get, the data argument of swag.DynamicJSONToStruct, cache.Set and returns of the loading method - never the base of a store, a type assertion or a decode target - and the result reaches the caller only through DynamicJSONToStruct, i.e. a deep copy (root-readonly); every error from load, Pointer.Get and DynamicJSONToStruct reaches the caller, so a reference that designates nothing cannot yield a zero value with a nil error through a swallowed error (errflow).",
+		Explanation: "Decided: no Resolve* entry point reaches an expander or the chain dereference, so nested $refs are not followed (resolve-pure); root and cached documents flow only to nil tests, jsonpointer.Pointer.Get, the data argument of swag.DynamicJSONToStruct, cache.Set and returns of the loading method - never the base of a store, a type assertion or a decode target - and the result reaches the caller only through DynamicJSONToStruct, i.e. a deep copy (root-readonly); every error from load, Pointer.Get and DynamicJSONToStruct reaches the caller, so a reference that designates nothing cannot yield a zero value with a nil error through a swallowed error (errflow). typed-nil-guard also requires the guard to cover every way of designating nothing: the untyped nil and nil maps/slices, not only nil pointers.",
 		NotCovered:  "that the URI/pointer arithmetic designates the right node; pointer escape decoding (jsonpointer); equality of the three ways of supplying the root (the typed-versus-generic half is C15's rule)",
 	})
 }
